@@ -198,6 +198,11 @@ func (v *collator_[V]) compareMaps(first ref.Value, second ref.Value) bool {
 }
 
 func (v *collator_[V]) compareIntrinsics(first, second ref.Value) bool {
+	switch first.Kind() {
+	case ref.Float32, ref.Float64:
+		// An undefined number (NaN) is only equal to itself.
+		return v.rankFloats(first.Float(), second.Float()) == EqualRank
+	}
 	return first.Interface() == second.Interface()
 }
 
@@ -429,6 +434,17 @@ func (v *collator_[V]) rankFloats(first, second float64) Rank {
 		return LesserRank
 	}
 	if first > second {
+		return GreaterRank
+	}
+	// An undefined number (NaN) is neither less than nor greater than any
+	// number.  To keep the ranking a total order it is ranked before all
+	// numbers and equal to itself.
+	var firstIsNaN = first != first
+	var secondIsNaN = second != second
+	if firstIsNaN && !secondIsNaN {
+		return LesserRank
+	}
+	if !firstIsNaN && secondIsNaN {
 		return GreaterRank
 	}
 	return EqualRank
